@@ -375,4 +375,50 @@ PROPS = {
         "partial": ["ContainsClaim (float margin of ContainsPoint)", "DistanceAttained / DistanceLowerBound / MaxDistanceUpperBound (numeric; "
                     "DistanceLowerBound and MaxDistanceUpperBound are REFUTED for the current code: distanceLowerBound_false, maxDistanceUpperBound_false)"],
     },
+    "C08": {
+        # generator, quick n, thorough n (sharded over the cores by ./check; n/2 bare coverings + n/6 index/target
+        # pairs with 3 (thorough 8) option sets each per shard)
+        "generators": [("c08", 96000, 48000)],
+        "modules": ["S2.EdgeQueryM", "S2.CellID", "S2.Locate", "S2.F64"],
+        "rule": "corpus (pinned cases of the repaired defects D7, D9, D10) first. c08cover: initCovering on bare sorted lists of "
+                "pairwise disjoint valid cells (0..80 cells, siblings, curve neighbours, whole faces, 1..6 faces with 1..3 cells of "
+                "mixed levels per face) compared with the Lean model cell for cell. c08eq: indexes of 3..300 (thorough 1500) edges "
+                "placed on 1..6 chosen cube faces, sizes on both sides of every target type's brute-force threshold (24..33 edges), "
+                "as regular / star loops (1..3 per face), one big loop spanning several faces, point clouds, polylines, tiny loops "
+                "at cube vertices / edges, plus edge-less shapes, the full and the empty loop; targets: points (random, polygon "
+                "centre, inside off-centre, on a vertex, 1e-9..0.1 off a vertex, antipodes, face centres), edges (random, crossing a "
+                "polygon boundary, sharing a vertex, far, between two index vertices), cells (random level, faces, at a vertex at any "
+                "level, leaf, inside a polygon, antipodal), shape-index targets (3..80 edges: near, overlapping, strictly inside, far "
+                "polyline, several shapes on several faces, without edges, a single point); options MaxResults {1,2,5,all} x "
+                "DistanceLimit {default, tiny, a true result distance -1/0/+1 ulp, 180 degrees / beyond, moderate} x MaxError "
+                "{0,1e-9,0.01,0.5 rad} x IncludeInteriors, closest and furthest queries; every case runs FindEdges, Distance, "
+                "IsDistanceLess/Greater and IsConservative* (at pred / value / succ of the exhaustive optimum, 0, 4, 1e-15, 4-ulp) "
+                "without and with UseBruteForce through the public API, plus an edge-by-edge scan with the target's own "
+                "updateDistanceToEdge. The oracle recomputes the expected answer from the scan with the model's postProcess "
+                "(ties resolved by (distance, shape, edge); for MaxResults=1 any edge at the optimal distance is accepted), checks "
+                "sorted / duplicate-free / <= MaxResults / within limit / optimized = brute force / MaxError in the doc's sense with "
+                "a bit-exact soft-float ChordAngle.Sub/Add / thresholds <=> exhaustive optimum / interiors by construction / the "
+                "covering really used. non-trivial = a c08eq line whose non-brute-force query really ran the optimized search "
+                "(hook: the query object's iterator exists), or a c08cover line with at least 2 cells; distinct = distinct (op, arguments)",
+        "nontrivial": lambda l: (l.startswith("c08eq") and " = O " in l) or (l.startswith("c08cover") and "," in l.split(" ")[1]),
+        "trusted_base": [
+            "per-edge distances (UpdateMinDistance / edge-pair / cell distances) are taken from the implementation's own "
+            "updateDistanceToEdge called edge by edge (their accuracy is C17 / C12); the judge is exhaustive-scan equality, not "
+            "numeric accuracy",
+            "containment for IncludeInteriors: the shapes reported by visitContainingShapes are cross-checked against "
+            "by-construction inside / outside sets for point targets only",
+            "hooks s2/verif_export_c08.go (read-only: iterator-exists flag = optimized path ran, indexCovering, initCovering on a "
+            "bare cell list, per-edge distance, containing shapes, inner-query settings of shape-index targets)",
+            "Lean search theorems assume WorldOK: updateDistanceToEdge exact, updateDistanceToCell a sound lower bound, initial "
+            "cells complete (numeric facts of C12 / C17)",
+        ],
+        "assumptions": [
+            "MaxResults >= 1 (documented); a distance target object is not shared between queries with different MaxError "
+            "(setMaxError is sticky on shape-index targets, as in C++)",
+            "ties: with MaxResults = 1 which of several edges at the optimal distance is reported is unspecified (heap order, Go map "
+            "order in findEdgesBruteForce)",
+        ],
+        "partial": ["label: partial (numeric lower bounds are hypotheses; targets that use MaxError: statement ApproxTargetSpec, "
+                    "checked by correspondence only)"],
+    },
 }
